@@ -1,2 +1,14 @@
-(* C09 *)
-From WaxModel Require Import Base.
+(* C09 -- An 'always exhaustive' verdict is sound (partial: proved on the class of patterns all of whose
+   expansions end in a tree wildcard; the full statement is [C09_full] and is decided per pattern by the check). *)
+From WaxModel Require Import Base Token Regex Spec Variance Fold.
+From WaxProofs Require Import SpecFacts.
+
+Definition C09_full (has_casing : char -> bool) (orbit : char -> list char) : Prop :=
+  forall t p z, is_exhaustive t = Ok Always -> Lang orbit t p -> nosep z = true -> z <> [] ->
+    Lang orbit t (p ++ SEP :: z).
+
+(* every path beneath a matched path is matched (even: every extension by `/` and anything) *)
+Theorem C09_sound_partial :
+  forall orbit t p z, ends_tree t = true -> Lang orbit t p -> Lang orbit t (p ++ SEP :: z).
+Proof. exact ends_tree_exhaustive. Qed.
+Print Assumptions C09_sound_partial.
